@@ -76,6 +76,10 @@ def _subtree(args: tuple) -> Partial:
     _set_points(scn)
     p = Partial()
     n = [0]
+    from vf.report import load_known
+
+    prop = modname.rsplit(".", 1)[1][:3].upper()
+    known = [k.get("signature") for k in load_known().get("findings", []) if k.get("property") == prop]
 
     def on_exec(ex: sched.Execution) -> None:
         n[0] += 1
@@ -96,8 +100,8 @@ def _subtree(args: tuple) -> Partial:
             # minimise the first new violation of this execution, tag all with scenario data
             for v in p.violations[before:]:
                 _finish_violation(scn, modname, desc, ex, v)
-            if len(p.violations) >= FAIL_FAST:
-                raise _Stop()
+            if sum(1 for v in p.violations if v["signature"] not in known) >= FAIL_FAST:
+                raise _Stop()  # recorded findings do not count: their subtrees are explored completely
         if replay_every and n[0] % replay_every == 0:
             ex2 = scn.execute(list(ex.choices), None)
             if sched.prefix_hashes(ex2)[-1] != sched.prefix_hashes(ex)[-1] or scn.digest(ex2) != d:
